@@ -117,7 +117,15 @@ def render_ob(ob, var="tt", how="lit"):
     if o in ("take", "drop"):
         return "(%s %s %s)" % (t, o, a1)
     if o == "in":
-        return "(%s in %s)" % (render_val(ob["x"]), t)
+        x = ob["x"]
+        if how == "bigrep" and x["t"] == "int" and abs(x["n"]) < 2 ** 53:
+            # the same NUMBER at another level / in another representation is the same element (`==`):
+            # a float or an integral rational probe, or the integer held in big representation
+            n = x["n"]
+            alt = ["(%d.0)" % n if n >= 0 else "(-%d.0)" % -n, "rational(%s)" % L.lit(n),
+                   "(2^70 - 2^70 + %s)" % L.lit(n)][n % 3]
+            return "(%s in %s)" % (alt, t)
+        return "(%s in %s)" % (render_val(x), t)
     if o == "dropindex":
         return "%s[%s:][%s]" % (t, a1, a2)
     raise ValueError(o)
